@@ -6,7 +6,7 @@ MANIFEST = dict(
     engine="nprobe+e2e", category="fault_enumeration",
     technique="runtime monitoring + fault injection: real BuildLog driven through sessions, file cut at every byte offset, "
               "continuations (append/reload/recompact/restat); oracle = independent fold of the on-disk bytes",
-    text="Histories of RecordCommand sessions over adversarial output names are run through the real BuildLog; the resulting "
+    text="(Round 10, real binary: a generator statement whose command ends with 'ninja -t restat' / '-t recompact' on its own build directory, running alone in the middle of a session; every command that ran has its new record on disk afterwards.) Histories of RecordCommand sessions over adversarial output names are run through the real BuildLog; the resulting "
          "file is cut at EVERY byte offset (small files) or around every record and 256KiB-buffer boundary (large files) and "
          "each prefix is loaded, appended to in one or two further sessions and reloaded. Loaded entries must equal an "
          "independent last-wins fold of the complete lines; after tear+append the merged line may only produce an entry whose "
